@@ -1193,6 +1193,53 @@ def flush_cases(ctx, H, tag=""):
                     "%d/%d" % (rng.randrange(1, 300), rng.randrange(1, 300)), "a%d/%d" % (rng.randrange(1, 40), rng.randrange(1, 4000))]
         lines.append("flush %s %s %s %d %s" % (coder, hx(data), points, rng.choice((0, 0, 0, 7, 100, 4096)), " ".join(variants)))
         meta.append((coder, points, len(data)))
+    # EMPTY lzma_code(LZMA_RUN) calls (avail_in == 0; also avail_out == 0) at the structural boundaries of an encoder: at the very
+    # start of the Stream, right after a completed FULL_FLUSH / FULL_BARRIER / SYNC_FLUSH (between Blocks), after the last data
+    # before LZMA_FINISH; also with no data after the last flush, two flushes in a row, and empty input overall. The bytes must
+    # equal the run without the empty calls (same number of Blocks, no extra empty Block).
+    small = "lzma2,dict=65536"
+    for k in range((60 if quick else 500) * (3 if ctx.broken else 1)):
+        n = rng.choice((0, 0, 1, 2, 100, 3000, 5000 + rng.randrange(0, 4000)))
+        data = gen_repeats(rng, n, rng.choice(("records", "text", "echo"))) if n else b""
+        r = rng.random()
+        if r < 0.4:
+            coder = rng.choice(("easy:%d:%d" % (rng.choice((0, 1, 3, 6)), rng.choice((0, 1, 4, 10))), "se:%d:%s" % (rng.choice((0, 4)), small),
+                                "se:1:delta,dist=2+" + small, "se:4:x86+" + small))
+            acts = "FBN" if ("x86" in coder) else "FBSN"
+        elif r < 0.65:
+            coder = "semt:%d:%d:%d:%d:%s" % (rng.choice((1, 2, 4)), rng.choice((0, 0, 1)), rng.choice((4096, 0)), rng.choice((1, 4)), rng.choice(("0", "1")))
+            acts = "FBN"
+        elif r < 0.8:
+            coder, acts = "alonee:lzma1,dict=4096", "N"
+        elif r < 0.9:
+            coder, acts = "blocke:%d:%s" % (rng.choice((0, 4)), small), "SN"
+        else:
+            coder, acts = "rawe:" + rng.choice((small, "lzma1,dict=4096", "delta,dist=1+" + small)), ("N" if False else "SN")
+            if "lzma1" in coder:
+                acts = "N"
+        def emp():
+            return rng.choice(("e1", "e1", "e2", "z1", "e1z1", "z1e1", "e3"))
+        pts = []
+        shape = rng.randrange(6)
+        mid = sorted(rng.randrange(0, n + 1) for _ in range(rng.choice((1, 2)))) if n else [0]
+        fl = [a for a in acts if a != "N"] or ["N"]
+        if shape == 0:
+            pts = ["N0" + emp()]                                             # start of the Stream, then the data (or nothing)
+        elif shape == 1:
+            pts = ["%s%d%s" % (rng.choice(fl), n, emp())]                    # no data after the last flush
+        elif shape == 2:
+            pts = ["%s%d%s" % (rng.choice(fl), mid[0], emp()), "%s%d%s" % (rng.choice(fl), n, emp())]
+        elif shape == 3:
+            pts = ["%s%d" % (rng.choice(fl), mid[0]), "%s%d%s" % (rng.choice(fl), mid[0], emp())]   # two flushes in a row
+            if rng.random() < 0.5:
+                pts.append("N%d%s" % (n, emp()))
+        elif shape == 4:
+            pts = ["N0" + emp()] + ["%s%d%s" % (rng.choice(acts), q, emp()) for q in mid] + ["N%d%s" % (n, emp())]
+        else:
+            pts = ["N%d%s" % (n, emp())]                                     # after all data, before LZMA_FINISH
+        variants = ["0/0"] + (["1/1", "a3/5", "100/100"] if n > 2 else [])
+        lines.append("flush %s %s %s %d %s" % (coder, hx(data), ",".join(pts), rng.choice((0, 0, 0, 1, 7, 100)), " ".join(variants)))
+        meta.append((coder, ",".join(pts) + "e", len(data)))
     outs = H.run(lines, costs=[m[2] * (8 if m[0].startswith("easy") else 1) for m in meta])
     bad = 0
     for ln, (coder, points, n), o in zip(lines, meta, outs):
@@ -1204,7 +1251,8 @@ def flush_cases(ctx, H, tag=""):
             continue
         ctx.cov["evaluations"] += int(mr.group(1)) + 1
         ctx.case((coder, points, ln[-64:]), True, {"flush": coder, "points": points, "input_len": n, "result": o[:140]} if bad == 0 and rng.random() < 0.02 else None)
-        ctx.count("flush%s:" % tag + coder.split(":")[0] + ":" + "".join(sorted(set(c for c in points if c in "SFB"))), int(mr.group(1)) + 1)
+        ctx.count("flush%s:" % tag + coder.split(":")[0] + ":" + "".join(sorted(set(c for c in points if c in "SFBN")))
+                  + ("+empty-calls" if points.endswith("e") else ""), int(mr.group(1)) + 1)
         if not FLUSH_OK.search(o):
             bad += 1
             if bad <= 5:
